@@ -105,6 +105,38 @@ def mc(module, cfg, tag, workers=8, timeout=900, heap="8g"):
     return res
 
 
+def apalache_inductive(module, init, nxt, tag, implied=None, timeout=600):
+    """Unbounded safety of a small integer ledger: Apalache discharges `IndInv` of <module>
+    (ConstInit constrains the constants symbolically): holds initially, is preserved by one step from
+    any state satisfying it, implies `implied`.  Returns a dict for the evidence; a counterexample is a
+    ToolError (the design model itself is wrong), a timeout is recorded as not run."""
+    out_dir = os.path.join(WORK, "apalache_" + tag)
+    shutil.rmtree(out_dir, ignore_errors=True)
+    steps = [("initially", init, "IndInv", 0), ("preserved", "IndInit", "IndInv", 1)]
+    if implied:
+        steps.append(("implies " + implied, "IndInit", implied, 0))
+    res = {"module": module, "engine": "apalache-mc", "obligations": [], "wall_s": 0}
+    t = time.time()
+    for (name, ini, inv, length) in steps:
+        cmd = ["apalache-mc", "check", "--out-dir=" + out_dir, "--cinit=ConstInit", "--init=" + ini, "--next=" + nxt,
+               "--inv=" + inv, "--length=%d" % length, module]
+        try:
+            rc, out = sh(cmd, timeout, cwd=SPEC, check=False)
+        except Exception as ex:  # timeout / tool missing: optional stage
+            res["obligations"].append({"name": name, "result": "not run (%s)" % type(ex).__name__})
+            continue
+        if "EXITCODE: OK" in out and "NoError" in out:
+            res["obligations"].append({"name": name, "result": "proved"})
+        elif "EXITCODE: ERROR (12)" in out:
+            raise ToolError("Apalache refutes %s of %s:\n%s" % (name, module, out[-3000:]))
+        else:
+            res["obligations"].append({"name": name, "result": "not run (exit %d)" % rc})
+    shutil.rmtree(out_dir, ignore_errors=True)
+    res["wall_s"] = round(time.time() - t, 1)
+    log("[apalache] %s: %s, %.1fs" % (module, ", ".join("%s %s" % (o["name"], o["result"]) for o in res["obligations"]), res["wall_s"]))
+    return res
+
+
 def gen(module, cfg, tag, timeout=900, simulate=None, seed=0, heap="8g"):
     """Run a generator model; collect every printed <<"GEN", json>> line. Returns list of objects."""
     meta = os.path.join(WORK, "tlc_gen_" + tag)
